@@ -6,3 +6,4 @@ if [ -n "$(git status --porcelain --untracked-files=no)" ]; then echo "/repo has
 git apply $REV "$P" || { echo "patch does not apply"; exit 2; }
 for c in "$@"; do (cd /verif && bin/check $c quick 2>&1 | grep -E "^(VIOLATION|KNOWN|C[0-9]+ |  failed)" | cut -c1-260); done
 git checkout -- . 
+git -C /verif checkout -- evidence 2>/dev/null
